@@ -572,6 +572,27 @@ def vs_samples(rng, n):
     return out
 
 
+def constraint_conflict_residue(rng):
+    """constraints no geometry can satisfy: a chain of n-1 constraints of length a closed by one constraint of length (n-1)*a + e.
+    The best compromise is the stretched chain with every constraint e/n off; e/n is drawn from 0.06 .. 0.14 nm, i.e. outside the
+    0.05 nm tolerance whatever the optimiser does (the deviations add up to at least e).  Optionally one more atom hangs on a
+    satisfiable bond, and the atoms are listed in random order."""
+    n = int(rng.integers(3, 6))
+    a = round(float(rng.uniform(0.22, 0.35)), 3)
+    off = float(rng.choice([0.06, 0.07, 0.08, 0.1, 0.12, 0.14]))
+    names = [str(x) for x in rng.permutation(tu.NAMES)[:n]]
+    cons = [[names[i], names[i + 1], a] for i in range(n - 1)] + [[names[0], names[n - 1], round((n - 1) * a + n * off, 4)]]
+    res = {"resname": "RO", "names": list(names), "atypes": ["P"] * n, "bonds": [], "constraints": cons, "angles": [], "impropers": [], "vs": []}
+    if rng.random() < 0.5:
+        extra = [x for x in tu.NAMES if x not in names][0]
+        res["names"].append(extra)
+        res["atypes"].append("P")
+        res["bonds"].append([names[int(rng.integers(0, n))], extra, round(float(rng.uniform(0.25, 0.4)), 3)])
+    perm = [int(i) for i in rng.permutation(len(res["names"]))]
+    res["names"] = [res["names"][i] for i in perm]
+    return res, off
+
+
 def _opt_chunk(arg):
     """optimize_geometry as a pure function: blocks read from a real .top, easy and deliberately hard (conflicting angle targets,
     collapsed or random starts) instances; the claim is only 'reported success => every target within tolerance'"""
@@ -589,7 +610,10 @@ def _opt_chunk(arg):
         res = tu.random_residue(rng, "RO", nmax=6, with_vs=rng.random() < 0.3)
         while len([t for t in res["atypes"] if t != "VS"]) < 3:
             res = tu.random_residue(rng, "RO", nmax=6, with_vs=False)
-        hard = i % 2 == 1
+        hard = i % 3 == 1
+        conflict = 0.0
+        if i % 3 == 2:
+            res, conflict = constraint_conflict_residue(rng)
         if hard:
             # conflicting targets: every bonded triple gets a wide angle (infeasible around a branched centre or in a ring)
             real = [nm for nm, t in zip(res["names"], res["atypes"]) if t != "VS"]
@@ -628,11 +652,12 @@ def _opt_chunk(arg):
                     worst[it] = max(worst.get(it, 0.0), float(d))
                     if not d <= TOLER[it] * (1 + 1e-9) + 1e-9:
                         ok = False
-            out.append({"success": bool(success), "targets_ok": bool(ok), "hard": hard, "raw": {"residue": res, "start": mode, "worst": worst, "seed": sd, "i": i}})
+            out.append({"success": bool(success), "targets_ok": bool(ok), "hard": hard, "conflict": conflict,
+                        "raw": {"residue": res, "start": mode, "worst": worst, "seed": sd, "i": i}})
         except tu.ItemTimeout:
             raise
         except Exception as exc:
-            out.append({"success": True, "targets_ok": False, "hard": hard, "raw": {"residue": res, "exception": "%s: %s" % (type(exc).__name__, exc), "seed": sd, "i": i}})
+            out.append({"success": True, "targets_ok": False, "hard": hard, "conflict": conflict, "raw": {"residue": res, "exception": "%s: %s" % (type(exc).__name__, exc), "seed": sd, "i": i}})
     return out
 
 
@@ -788,11 +813,13 @@ def run(tier):
     if timeouts > nruns // 2 or not runs:
         raise c.MachineryError("%d of %d template runs timed out" % (timeouts, nruns))
     vs = vs_samples(np.random.default_rng(sd + 3), 350 if quick else 3500)
-    nopt = 12 if quick else 60
+    nopt = 15 if quick else 60
     chunks_ = tu.pmap_timeout(_opt_chunk, [(sd * 7919 + j, 10, str(wd / ("o%d" % j))) for j in range(nopt)], limit=120)
     opt = [o for st, part, _ in chunks_ if st == "ok" for o in part]
     ck.extra["optimize_geometry_samples"] = {"total": len(opt), "reported_success": sum(1 for o in opt if o["success"]),
                                              "reported_failure": sum(1 for o in opt if not o["success"]),
+                                             "inconsistent_constraint_instances": sum(1 for o in opt if o["conflict"]),
+                                             "of_these_ending_0.05_to_0.158_nm_off": sum(1 for o in opt if o["conflict"] and 0.05 < o["raw"].get("worst", {}).get("constraints", 0) < 0.158),
                                              "chunks_timed_out_no_verdict": sum(1 for st, _, _ in chunks_ if st != "ok")}
     rejected, badvs = validate(ck, runs, vs, "traces", opt=opt)
     badopt = [-i for i in badvs if i < 0]
@@ -831,7 +858,8 @@ def run(tier):
         ck.violation({"kind": "optimize_geometry", "sample": opt[i - 1]}, what="optimize_geometry reported success but a target is outside its tolerance: worst deviations %s" % (
             json.dumps(opt[i - 1]["raw"].get("worst", opt[i - 1]["raw"].get("exception")))[:300]))
     ck.evaluations += len(opt)
-    if not ck.violations and not (ck.extra["optimize_geometry_samples"]["reported_success"] and ck.extra["optimize_geometry_samples"]["reported_failure"]):
+    if not ck.violations and not (ck.extra["optimize_geometry_samples"]["reported_success"] and ck.extra["optimize_geometry_samples"]["reported_failure"]
+                                  and ck.extra["optimize_geometry_samples"]["of_these_ending_0.05_to_0.158_nm_off"] >= 5):
         raise c.MachineryError("vacuous optimiser samples: %s" % ck.extra["optimize_geometry_samples"])
     for i in badvs:
         ck.violation({"kind": "construct_vs", "sample": vs[i - 1]}, what="construct_vs %s differs from the GROMACS construction or is not equivariant: %s" % (
